@@ -23,12 +23,51 @@ Proof. induction l; simpl; auto; intros H. rewrite (H a) by auto. f_equal. apply
 Lemma filter_all_false : forall {A} (p : A -> bool) l, (forall x, In x l -> p x = false) -> filter p l = [].
 Proof. induction l; simpl; auto; intros H. rewrite (H a) by auto. apply IHl. auto. Qed.
 
+(* ---- sorted site lists ---- *)
+Local Open Scope Z_scope.
+Lemma insert_uniq_in : forall x y l, In y (insert_uniq x l) <-> y = x \/ In y l.
+Proof.
+  induction l; simpl. - intuition.
+  - destruct (x <? a) eqn:E1; simpl. + intuition.
+    + destruct (x =? a) eqn:E2; simpl.
+      * apply Z.eqb_eq in E2. subst. intuition.
+      * rewrite IHl. intuition.
+Qed.
+Lemma insert_uniq_sorted : forall x l, StronglySorted Z.lt l -> StronglySorted Z.lt (insert_uniq x l).
+Proof.
+  induction l; simpl; intros H. - constructor; constructor.
+  - inversion H; subst. destruct (x <? a) eqn:E1.
+    + apply Z.ltb_lt in E1. constructor; auto. constructor; auto.
+      eapply Forall_impl; [|exact H3]. simpl. intros. lia.
+    + destruct (x =? a) eqn:E2; auto. apply Z.ltb_ge in E1. apply Z.eqb_neq in E2.
+      constructor; auto. apply Forall_forall. intros y Hy. apply insert_uniq_in in Hy.
+      destruct Hy as [->|Hy]; [lia|]. rewrite Forall_forall in H3. auto.
+Qed.
+Lemma sorted_sites_sorted : forall (site : dof -> Z) w, StronglySorted Z.lt (sorted_sites site w).
+Proof. intros site. induction w; simpl. - constructor. - apply insert_uniq_sorted. exact IHw. Qed.
+Lemma sorted_sites_in : forall (site : dof -> Z) w s, In s (sorted_sites site w) <-> exists l, In l w /\ site (l_dof l) = s.
+Proof.
+  intros site. induction w; simpl; intros s.
+  - split; [contradiction|]. intros [l [[] _]].
+  - rewrite insert_uniq_in, IHw. split.
+    + intros [->|[l [Hl Hs]]]; eauto.
+    + intros [l [[<-|Hl] Hs]]; [left; auto|right; eauto].
+Qed.
+Lemma sorted_nodup : forall l, StronglySorted Z.lt l -> NoDup l.
+Proof.
+  induction l; intros H; constructor; inversion H; subst; auto.
+  intros Hin. rewrite Forall_forall in H3. specialize (H3 _ Hin). lia.
+Qed.
+
+Local Close Scope Z_scope.
+
 (* ------------------------------------------------------------------------------------------ *)
 Section Proofs.
 Variable ra : ralg.
 Variable ma : malg ra.
 Hypothesis ok : malg_ok ra ma.
 
+Local Open Scope Z_scope.
 Declare Scope M_scope.
 Local Notation "x + y" := (madd ma x y) : M_scope.
 Local Notation "x * y" := (mmul ma x y) : M_scope.
@@ -159,7 +198,7 @@ Proof.
   - intros H. injection H as <-. cbn [word factor]. rewrite (denw_all_I _ Ha).
     simpl. rewrite (ok_interp_I ra ma ok). rewrite mul1l. reflexivity.
   - destruct (existsb _ (l0 :: w)); [discriminate|]. intros H. injection H as <-.
-    cbn [word factor]. rewrite denw_filter_I. reflexivity.
+    cbn [word factor]. f_equal. exact (denw_filter_I (l0 :: w)).
 Qed.
 Lemma squeeze_factor : forall o o', squeeze ra o = Some o' -> factor o' = factor o.
 Proof.
@@ -293,6 +332,20 @@ Proof.
   - apply IHn. simpl in Hl. pose proof (filter_length_le' (fun x => negb (same_term ra o x)) rest). lia.
 Qed.
 
+Lemma nodup_map_filter : forall {A B} (f : A -> B) (p : A -> bool) l,
+  NoDup (map f l) -> NoDup (map f (filter p l)).
+Proof.
+  induction l; simpl; intros H; auto. inversion H; subst. destruct (p a); simpl; auto.
+  constructor; auto. intros Hin. apply H2. apply in_map_iff in Hin. destruct Hin as [x [Hx Hi]].
+  apply filter_In in Hi. apply in_map_iff. exists x. tauto.
+Qed.
+(* the result of simplify has pairwise different (symbol, dofs) keys *)
+Lemma simplify_nodup : forall t s r, simplify ra t s = Some r -> NoDup (map (fun o => key (word o)) r).
+Proof.
+  unfold simplify, merged. intros t s r H. destruct (squeeze_all ra s); [|discriminate]. simpl in H.
+  injection H as <-. apply nodup_map_filter. apply merge_nodup. lia.
+Qed.
+
 (* ---- Model.check_operator_terms ---- *)
 Section WithReq.
 Hypothesis rok : ralg_ok ra.
@@ -357,8 +410,9 @@ Proof.
 Qed.
 Lemma v_iadd_den : forall a b v, v_iadd ra a b = Some v -> denv v = denv a + denv b.
 Proof.
-  intros a b v. destruct a as [k c|x|l|s], b as [k' c'|y|l'|s']; simpl; intros H; try discriminate;
-    try (apply (v_add_den _ _ _ H)); injection H as <-; simpl; rewrite ?dens_app, ?dens_single; reflexivity.
+  intros a b v H. destruct a as [k c|x|l|s], b as [k' c'|y|l'|s'];
+    try (exact (v_add_den _ _ _ H)); simpl in H; try discriminate;
+    injection H as <-; simpl; rewrite ?dens_app, ?dens_single; reflexivity.
 Qed.
 Lemma v_simplify_den : forall t a v, tol_exact ra t -> v_simplify ra t a = Some v -> denv v = denv a.
 Proof.
@@ -434,7 +488,7 @@ Lemma op_product_den_gen : forall t a,
 Proof.
   induction t; simpl; intros a0.
   - rewrite app_nil_r, mul1r. destruct a0; reflexivity.
-  - rewrite app_assoc. rewrite (IHt (op_mul ra a0 a)). rewrite den_op_mul. symmetry. apply mulA.
+  - rewrite app_assoc. etransitivity; [exact (IHt (op_mul ra a0 a))|]. rewrite den_op_mul. symmetry. apply mulA.
 Qed.
 Lemma op_product_den : forall l o, op_product ra l = Some o -> den o = mprod ra ma (map den l).
 Proof.
@@ -471,47 +525,14 @@ Lemma groups_den : forall ss w, NoDup ss ->
 Proof.
   induction ss; intros w Hnd; simpl.
   - rewrite mul1l. f_equal. apply filter_all_true. reflexivity.
-  - inversion Hnd; subst. rewrite (split_one a w) at 3. rewrite <- mulA. f_equal.
+  - inversion Hnd; subst. symmetry. etransitivity; [apply (split_one a w)|]. symmetry.
+    rewrite <- mulA. f_equal.
     rewrite <- (IHss (filter (fun l => negb (on_site site a l)) w) H2). f_equal.
     + f_equal. apply map_ext_in. intros s Hs. f_equal. rewrite filter_filter'. apply filter_ext_in'.
       intros x _. unfold on_site. destruct (site (l_dof x) =? a) eqn:E1; simpl; auto.
       apply Z.eqb_eq in E1. destruct (site (l_dof x) =? s) eqn:E2; auto. apply Z.eqb_eq in E2. congruence.
     + f_equal. rewrite filter_filter'. apply filter_ext_in'. intros x _. unfold not_in_sites, on_site. simpl.
       rewrite negb_orb. reflexivity.
-Qed.
-
-Lemma insert_uniq_in : forall x y l, In y (insert_uniq x l) <-> y = x \/ In y l.
-Proof.
-  induction l; simpl. - intuition.
-  - destruct (x <? a) eqn:E1; simpl. + intuition.
-    + destruct (x =? a) eqn:E2; simpl.
-      * apply Z.eqb_eq in E2. subst. intuition.
-      * rewrite IHl. intuition.
-Qed.
-Lemma insert_uniq_sorted : forall x l, StronglySorted Z.lt l -> StronglySorted Z.lt (insert_uniq x l).
-Proof.
-  induction l; simpl; intros H. - constructor; constructor.
-  - inversion H; subst. destruct (x <? a) eqn:E1.
-    + apply Z.ltb_lt in E1. constructor; auto. constructor; auto.
-      eapply Forall_impl; [|exact H3]. simpl. intros. lia.
-    + destruct (x =? a) eqn:E2; auto. apply Z.ltb_ge in E1. apply Z.eqb_neq in E2.
-      constructor; auto. apply Forall_forall. intros y Hy. apply insert_uniq_in in Hy.
-      destruct Hy as [->|Hy]; [lia|]. rewrite Forall_forall in H3. auto.
-Qed.
-Lemma sorted_sites_sorted : forall w, StronglySorted Z.lt (sorted_sites site w).
-Proof. induction w; simpl. - constructor. - apply insert_uniq_sorted. exact IHw. Qed.
-Lemma sorted_sites_in : forall w s, In s (sorted_sites site w) <-> exists l, In l w /\ site (l_dof l) = s.
-Proof.
-  induction w; simpl; intros s.
-  - split; [contradiction|]. intros [l [[] _]].
-  - rewrite insert_uniq_in, IHw. split.
-    + intros [->|[l [Hl Hs]]]; eauto.
-    + intros [l [[<-|Hl] Hs]]; [left; auto|right; eauto].
-Qed.
-Lemma sorted_nodup : forall l, StronglySorted Z.lt l -> NoDup l.
-Proof.
-  induction l; intros H; constructor; inversion H; subst; auto.
-  intros Hin. rewrite Forall_forall in H3. specialize (H3 _ Hin). lia.
 Qed.
 
 (* the elementary operators multiplied in site order, times the returned factor, are the operator *)
@@ -522,8 +543,8 @@ Proof.
   rewrite map_map. simpl.
   rewrite (map_ext _ (fun s => denw (filter (on_site site s) (word o)))).
   2:{ intros s. unfold OpAlg.den. simpl. rewrite (ok_emb_1 ra ma ok). apply mul1l. }
-  rewrite <- (groups_den (sorted_sites site (word o)) (word o)) at 2.
-  2:{ apply sorted_nodup. apply sorted_sites_sorted. }
+  etransitivity; [|apply (groups_den (sorted_sites site (word o)) (word o));
+                   apply sorted_nodup; apply sorted_sites_sorted].
   rewrite (filter_all_false (not_in_sites (sorted_sites site (word o)))).
   - simpl. symmetry. apply mul1r.
   - intros x Hx. unfold not_in_sites. apply negb_false_iff. apply existsb_exists.
@@ -545,29 +566,9 @@ Theorem split_elementary_normal_form : forall ra (site : dof -> Z) (o : op ra),
 Proof.
   intros ra site o ss. split; [|split; [|split; [|split]]].
   - unfold split_elementary. simpl. rewrite map_map. reflexivity.
-  - induction (word o); simpl; [constructor|].
-    clear - IHl. revert IHl. generalize (sorted_sites site l). intros l0 H.
-    induction l0; simpl. + constructor; constructor.
-    + inversion H; subst. destruct (site (l_dof a) <? a0) eqn:E1.
-      * apply Z.ltb_lt in E1. constructor; auto. constructor; auto.
-        eapply Forall_impl; [|exact H3]. simpl. intros. lia.
-      * destruct (site (l_dof a) =? a0) eqn:E2; auto. apply Z.ltb_ge in E1. apply Z.eqb_neq in E2.
-        constructor; auto. apply Forall_forall. intros y Hy.
-        assert (y = site (l_dof a) \/ In y l0) as [->|Hy'].
-        { clear - Hy. induction l0; simpl in *. - intuition.
-          - destruct (site (l_dof a) <? a0); simpl in *; [intuition|].
-            destruct (site (l_dof a) =? a0) eqn:E; simpl in *; [intuition|]. intuition. }
-        -- lia.
-        -- rewrite Forall_forall in H3. auto.
+  - apply sorted_sites_sorted.
   - intros s Hs. split.
-    + assert (exists l, In l (word o) /\ site (l_dof l) = s) as [l [Hl Hsl]].
-      { subst ss. clear - Hs. induction (word o); simpl in *; [contradiction|].
-        assert (s = site (l_dof a) \/ In s (sorted_sites site l)) as [->|H].
-        { revert Hs. generalize (sorted_sites site l). induction l0; simpl; [intuition|].
-          destruct (site (l_dof a) <? a0); simpl; [intuition|].
-          destruct (site (l_dof a) =? a0) eqn:E; simpl; [intuition|]. intuition. }
-        - eauto.
-        - destruct (IHl H) as [l1 [H1 H2]]. eauto. }
+    + apply sorted_sites_in in Hs. destruct Hs as [l [Hl Hsl]].
       intros Hnil. assert (In l (filter (on_site site s) (word o))) as Hin.
       { apply filter_In. split; auto. unfold on_site. apply Z.eqb_eq. exact Hsl. }
       rewrite Hnil in Hin. contradiction.
@@ -609,7 +610,7 @@ Proof.
   intros ra [wa fa] [wb fb]. unfold to_tuple. simpl. intros H. injection H as H1 H2 H3 H4. subst fb.
   f_equal. revert wb H1 H2 H4. induction wa as [|[[s d] q] wa]; destruct wb as [|[[s' d'] q'] wb]; simpl;
     intros H1 H2 H4; try discriminate; auto.
-  injection H1 as -> H1. injection H2 as -> H2. injection H4 as -> H4. f_equal. apply IHwa; auto.
+  unfold l_sym, l_dof, l_qn in *. simpl in *. inversion H1; inversion H2; inversion H4; subst. f_equal. apply IHwa; auto.
 Qed.
 (* a == b  ->  hash(a) == hash(b), for every hash function of tuples; and a == b iff same fields *)
 Theorem eq_hash : forall ra, ralg_ok ra -> forall (a b : op ra), op_eqb ra a b = true ->
@@ -689,10 +690,10 @@ Proof.
 Qed.
 Lemma MA2_ok : malg_ok ZR MA2.
 Proof.
-  constructor; simpl; unfold m2_add, m2_mul, m2_opp, m2_scal; intros;
+  constructor; unfold MA2, ZR; cbn [M m0 m1 madd mmul mopp emb interp R r0 r1 radd rmul ropp];
+    unfold m2_add, m2_mul, m2_opp, m2_scal; intros;
     repeat match goal with x : M2 |- _ => destruct x as [[[? ?] ?] ?] end;
-    try (repeat f_equal; ring).
-  reflexivity.
+    repeat match goal with |- (_, _) = (_, _) => f_equal end; try ring; try reflexivity.
 Qed.
 Lemma MA2_commute : sites_commute ZR MA2 (fun d => d).
 Proof.
@@ -700,5 +701,5 @@ Proof.
   destruct (s1 =? 0), (s2 =? 0), (d1 =? 0) eqn:E1, (d2 =? 0) eqn:E2;
     try (apply Z.eqb_eq in E1; apply Z.eqb_eq in E2; congruence);
     repeat match goal with |- context [if ?b then _ else _] => destruct b end;
-    repeat f_equal; ring.
+    repeat match goal with |- (_, _) = (_, _) => f_equal end; ring.
 Qed.
